@@ -69,7 +69,7 @@ func c03ParamRef(f *ssa.Function, s string) ssa.Value {
 }
 
 func c03Sub(r *fw.Run, c *c03x) {
-	ru := r.Rule("C03.sub", "nested decodes: Format/TryFieldFormat/Len/Range decode on d.bitBuf with IsRoot=false and Range = {Pos(), BitsLeft()} / {Pos(), nBits} / {firstBit, nBits}, link the result (children for Format) and advance by the decoded length / nBits / not at all; TryFieldFormatBitBuf decodes the given buffer as a root and places it at d.Pos(); Field{Array,Struct}[RootBitBufFn] create the compound kind they name, link it before fn and (root variants) mark IsRoot before fn and defer postProcess before fn so that it also runs when fn fails; decode.Decode forwards to decode() and every outside caller decodes as a root with reader and Range from one binary value; a nested result is linked / advanced over only after dv != nil and dv.Errors() == nil were established", 45)
+	ru := r.Rule("C03.sub", "nested decodes: Format/TryFieldFormat/Len/Range decode on d.bitBuf with IsRoot=false and Range = {Pos(), BitsLeft()} / {Pos(), nBits} / {firstBit, nBits}, link the result (children for Format) and advance by the decoded length / nBits / not at all; TryFieldFormatBitBuf decodes the given buffer as a root and places it at d.Pos(); Field{Array,Struct}[RootBitBufFn] create the compound kind they name, link it before fn and (root variants) mark IsRoot before fn and defer postProcess before fn so that it also runs when fn fails; decode.Decode forwards to decode() and every outside caller decodes as a root with reader and Range from one binary value; a nested result is linked / advanced over only after dv != nil and dv.Errors() == nil were established; FieldArrayValue/FieldStructValue/FieldArrayLoop/FieldStructArrayLoop/FieldStructNArray return the compound kind (of the element kind) their name says", 50)
 	p := c.p
 	posFn := c.fn(ru, c03D+"Pos")
 	blFn := c.fn(ru, c03D+"BitsLeft")
@@ -383,6 +383,7 @@ func c03Sub(r *fw.Run, c *c03x) {
 		}
 	}
 
+	c03SubWrappers(ru, c)
 	// compound constructors
 	for _, k := range []struct {
 		fn      string
@@ -448,6 +449,92 @@ func c03Sub(r *fw.Run, c *c03x) {
 			ru.Check(okPP, k.fn+":postprocess-deferred", c.at(f), "defer cd.Value.postProcess() registered before fn", k.fn+": the nested buffer compound "+why)
 		}
 	}
+}
+
+// c03Wrappers: the convenience constructors built on FieldArray / FieldStruct. outer = the compound
+// they create and return; elem = the compound they create per element inside it ("" = caller's fn decides).
+var c03Wrappers = []struct{ fn, outer, elem string }{
+	{"FieldArrayValue", "FieldArray", ""},
+	{"FieldStructValue", "FieldStruct", ""},
+	{"FieldArrayLoop", "FieldArray", ""},
+	{"FieldStructArrayLoop", "FieldArray", "FieldStruct"},
+	{"FieldStructNArray", "FieldArray", "FieldStruct"},
+}
+
+// c03SubWrappers: each wrapper creates the compound kind its name says: exactly one call of the outer
+// constructor on its own receiver with its name parameter, whose result it returns; no other compound
+// constructor on the receiver; element wrappers create every element with the element constructor
+// (structName, fn) on the array's decoder, inside the closure handed to the outer constructor.
+func c03SubWrappers(ru *fw.Rule, c *c03x) {
+	p := c.p
+	ctors := map[string]*ssa.Function{}
+	for _, n := range []string{"FieldArray", "FieldStruct"} {
+		ctors[n] = c.fn(ru, c03D+n)
+		if ctors[n] == nil {
+			return
+		}
+	}
+	for _, w := range c03Wrappers {
+		f := c.fn(ru, c03D+w.fn)
+		if f == nil {
+			continue
+		}
+		d, name := ssa.Value(f.Params[0]), ssa.Value(f.Params[1])
+		good, why := true, ""
+		var outer *ssa.Call
+		for kind, ctor := range ctors {
+			for _, call := range c.callsTo(f, ctor) {
+				if kind != w.outer {
+					good, why = false, "calls "+kind+" on its receiver"
+					continue
+				}
+				if outer != nil {
+					good, why = false, "creates more than one compound"
+				}
+				outer = call
+			}
+		}
+		if outer == nil {
+			good, why = false, "does not call "+w.outer
+		} else {
+			a := outer.Common().Args
+			if c.canon(a[0]) != d || c.canon(a[1]) != name {
+				good, why = false, w.outer+" is not called on the receiver with the name parameter"
+			}
+			fw.EachInstr(f, func(ins ssa.Instruction) {
+				if ret, ok := ins.(*ssa.Return); ok && c.canon(ret.Results[0]) != ssa.Value(outer) {
+					good, why = false, "does not return the compound it created"
+				}
+			})
+			K := c.closureFn(a[2])
+			if K == nil || K.Parent() != f || len(K.Params) != 1 {
+				good, why = false, "the function handed to "+w.outer+" is not a closure of the wrapper"
+			} else {
+				kd := ssa.Value(K.Params[0])
+				nElem := 0
+				for kind, ctor := range ctors {
+					for _, kf := range fw.WithClosures(K) {
+						for _, call := range c.callsTo(kf, ctor) {
+							if kind != w.elem {
+								good, why = false, "creates "+kind+" elements"
+								continue
+							}
+							nElem++
+							ea := call.Common().Args
+							if c.canon(ea[0]) != kd || len(f.Params) < 3 || c.canon(ea[1]) != ssa.Value(f.Params[2]) || c.canon(ea[2]) != ssa.Value(f.Params[len(f.Params)-1]) {
+								good, why = false, "elements are not "+w.elem+"(structName, fn) on the array's decoder"
+							}
+						}
+					}
+				}
+				if w.elem != "" && nElem != 1 {
+					good, why = false, "does not create its elements with "+w.elem
+				}
+			}
+		}
+		ru.Check(good, w.fn+":delegates", c.at(f), "returns "+w.outer+"(name, ...)"+map[bool]string{true: " of " + w.elem + "(structName, fn) elements", false: ""}[w.elem != ""], w.fn+" "+why+": the compound it hands back is not the kind its name promises (a struct keeps names, is checked for duplicates and sorted by range; an array keeps decode order and gets indices)")
+	}
+	_ = p
 }
 
 func c03BoolStr(b bool) string {
